@@ -1333,6 +1333,21 @@ def fam_optim(rng, n, tier, mode="exact", frompass=True):
                     L.append("gdstep G %s" % ",".join(names))
                     L.append("snapshot")
             cases.append(Case(L, ("optshared", k, sameshape, tuple(map(tuple, shapes))), ["shared-optimizer"], mode))
+    # long parameter lists / long parameters: the flat gather / step / scatter at totals from 2^10 to beyond 2^17
+    for sizes in ([600, 500], [5000, 3, 4000], [40000, 30000, 7], [70000, 65000, 5], [3, 131072, 2], [50000, 50000, 50000]):
+        L = []
+        names = ["p%d" % i for i in range(len(sizes))]
+        for nm, sz in zip(names, sizes):
+            L.append("new %s %d %s" % (nm, sz, vals_s([rng.randint(-4, 4) for _ in range(sz)], mode)))
+            L.append("tracked %s" % nm)
+        for rep in range(2):
+            for nm, sz in zip(names, sizes):
+                if rep == 0 or rng.random() < 0.6:
+                    L.append("new g%s%d %d %s" % (nm, rep, sz, vals_s([rng.randint(-4, 4) for _ in range(sz)], mode)))
+                    L.append("setgrad %s g%s%d" % (nm, nm, rep))
+            L.append("gdupdate %s %s" % (sc(Fraction(1, 2) if mode == "exact" else 0.5, mode), ",".join(names)))
+            L.append("snapshot")
+        cases.append(Case(L, ("optlong", tuple(sizes)), ["long-parameters", "total>=2^%d" % (sum(sizes).bit_length() - 1)], mode))
     # gradients that come from real passes
     for _ in range(n // 2 if frompass else 0):
         p = Prog(rng, mode)
@@ -1572,6 +1587,24 @@ def fam_transparent(rng, n, tier, mode="exact"):
             if how not in ("drop",):
                 L += ["grad c", "samegrad a c"]
             cases.append(Case(L, ("trflagclone", how, leafhow), ["systematic", "flag-on-clone", how], mode))
+    # one handle on both sides of an operation, or a clone of it on one side: the same result
+    for (fa, fb) in (("N", "T"), ("T", "N"), ("N", "N"), ("T", "T")):
+        for cform in ("-", "bias", "full"):
+            for trk in (False, True):
+                L = ["new a 3,3 %s" % vals_s([1, 2, 3, -1, 0, 2, 4, 1, -2], mode)]
+                if cform != "-":
+                    cd = [3] if cform == "bias" else [3, 3]
+                    L.append("new c %s %s" % (dims_s(cd), vals_s([i * i + 2 * i + 1 for i in range(prod(cd))], mode)))
+                cn = "c" if cform != "-" else "-"
+                if trk:
+                    L.append("tracked a")
+                L += ["matmul r a %s a %s %s" % (fa, fb, cn), "clone a2 a", "matmul r2 a %s a2 %s %s" % (fa, fb, cn), "same r r2",
+                      "matmul r3 a2 %s a %s %s" % (fa, fb, cn), "same r r3", "clone a3 a", "matmul r4 a3 %s a2 %s %s" % (fa, fb, cn), "same r r4"]
+                for op in ("mul", "add", "sub"):
+                    L += ["%s e1 a a" % op, "%s e2 a a2" % op, "same e1 e2"]
+                if trk:
+                    L += ["backward r -", "grad a"]
+                cases.append(Case(L, ("trsame", fa, fb, cform, trk), ["systematic", "same-handle-twice", "c=" + cform], mode))
             # the same two passes without any clone: gradients must coincide with the program above
             v3 = vals_s(gen_vals(rng, 3, mode), mode)
             T = ["new a 3 %s" % v3, "%s a" % leafhow, "mul r a a", "backward r -", "clone c a"]
@@ -1885,12 +1918,46 @@ def fam_flags(rng, n, tier, mode="exact"):
 FAMILIES.update({"transparent": fam_transparent, "linear": fam_linear, "flags": fam_flags})
 
 
+def accumulate_flagged(rng, mode):
+    """an intermediate result re-flagged in every way (dropped from tracking and started again: tracked without
+    the keep flag; stopped; re-tracked; clones re-flagged) and then consumed by a tracked operation: two or three
+    passes leave exactly two or three times the single-pass gradients, nothing stays pending anywhere"""
+    out = []
+    seqs = [[], ["untracked c", "start c"], ["stop c", "start c"], ["untracked c", "tracked c"], ["stop c"],
+            ["clone cc c", "untracked cc", "start cc"], ["clone cc c", "stop cc"], ["start c"], ["tracked c"]]
+    for seq in seqs:
+        for consumer in ("mul", "add", "matmul"):
+            for npass in (2, 3):
+                use = "cc" if any(l.startswith("clone cc") for l in seq) else "c"
+                def prog(pre):
+                    L = ["new %sa 2,2 %s" % (pre, vals_s([1, 2, 3, 4], mode)), "tracked %sa" % pre,
+                         "new %sb 2,2 %s" % (pre, vals_s([2, -1, 1, 3], mode)), "tracked %sb" % pre,
+                         "mul %sc %sa %sb" % (pre, pre, pre)]
+                    for l in seq:
+                        L.append(" ".join(t if t in ("untracked", "start", "stop", "tracked", "clone") else pre + t for t in l.split()))
+                    L += ["new %sk 2,2 %s" % (pre, vals_s([1, -2, 2, 1], mode)), "tracked %sk" % pre]
+                    if consumer == "matmul":
+                        L.append("matmul %sd %s%s N %sk N -" % (pre, pre, use, pre))
+                    else:
+                        L.append("%s %sd %s%s %sk" % (consumer, pre, pre, use, pre))
+                    return L
+                L = prog("a_")
+                for k in range(npass):
+                    L += ["backward a_d -", "probe a_c", "probe a_a", "probe a_d", "grad a_a", "grad a_b", "grad a_k"]
+                for k in range(npass):
+                    L += prog("p%d_" % k) + ["backward p%d_d -" % k]
+                for v in ("a", "b", "k"):
+                    L.append("sumgrad a_%s %s" % (v, ",".join("p%d_%s" % (k, v) for k in range(npass))))
+                out.append(Case(L, ("accflag", tuple(seq), consumer, npass), ["reflagged-intermediate", "passes%d" % npass], mode))
+    return out
+
+
 def fam_accumulate(rng, n, tier, mode="exact"):
     """C10: a program with a *sequence* of passes (the same result again, an interior node and later a
     result containing it, results sharing sub-graphs), optionally with a clear in between, next to one
     fresh instance of the program per pass running that pass alone: every gradient must be the sum of
     the single-pass gradients since the last clear (`sumgrad`, the implementation against itself)."""
-    out = []
+    out = accumulate_flagged(rng, mode)
     for i in range(n):
         p = build_program(rng, mode, rng.randint(2, 10 if tier == "quick" else 16))
         names = sorted(p.shape)
@@ -1976,6 +2043,24 @@ def fam_bcast_add(rng, n, tier, mode="exact"):
                     L.append("add r t1 t2" if first == "same" else "add r t2 t1")
                     L += ["backward r -", "grad b", "mul q r r", "backward q -", "grad b"]
                     cases.append(Case(L, ("bamix", tuple(s_), k, first, passthru), ["mixed-rank", passthru], mode))
+    # one operand broadcast twice in one pass into results of EQUAL element count but different layout
+    # ([3,1] into [3,4] and into [4,3,1]): each contribution is reduced with its own shape before they meet
+    layouts = [([3, 1], [3, 4], [4, 3, 1]), ([1, 2], [3, 2], [3, 1, 2]), ([2, 1], [2, 3], [3, 2, 1]), ([2, 1, 2], [2, 3, 2], [3, 2, 1, 2]),
+               ([1, 3], [4, 3], [2, 2, 3]), ([3, 1], [3, 2], [2, 3, 1]), ([2, 1, 1], [2, 2, 3], [3, 2, 1, 2])]
+    for (da, d1, d2) in layouts:
+        if compat(da, d1) != d1 or compat(da, d2) != d2 or prod(d1) != prod(d2):
+            continue
+        for op in ("mul", "add"):
+            for order in (0, 1):
+                cnt = prod(d1)
+                L = ["new a %s %s" % (dims_s(da), vals_s(gen_vals(rng, prod(da), mode), mode)), "tracked a",
+                     "new x %s %s" % (dims_s(d1), vals_s([i + 1 for i in range(cnt)] if mode == "exact" else floats(rng, cnt), mode)),
+                     "new y %s %s" % (dims_s(d2), vals_s([2 * i * i + 1 for i in range(cnt)] if mode == "exact" else floats(rng, cnt), mode)),
+                     "%s r1 a x" % op, "%s r2 a y" % op, "reshape f1 r1 %d" % cnt, "reshape f2 r2 %d" % cnt,
+                     "new w %d %s" % (cnt, vals_s([3 * i + 1 for i in range(cnt)] if mode == "exact" else floats(rng, cnt), mode)),
+                     "mul g1 f1 w", ("add z g1 f2" if order == 0 else "add z f2 g1"), "backward z -", "grad a",
+                     "backward z -", "grad a"]
+                cases.append(Case(L, ("balayout", tuple(da), tuple(d1), tuple(d2), op, order), ["equal-count-layouts", op], mode))
     for _ in range(n):
         a, b = rand_compat_pair(rng, 5 if tier == "thorough" else 4, 4)
         uses = rng.choice([1, 2, 3, 4])
@@ -2135,24 +2220,46 @@ def fam_selfviews(rng, n, tier, mode="exact"):
     for (da, dv) in mm:
         for ta in ("N", "T"):
             for tb in ("N", "T"):
-                for how in ("reshape", "clone"):
-                    if how == "clone" and da != dv:
+                for how in ("reshape", "clone", "same"):
+                    if how in ("clone", "same") and da != dv:
                         continue
                     ka = da[-2] if ta == "T" else da[-1]
                     kb = dv[-1] if tb == "T" else dv[-2]
                     if ka != kb:
                         continue
                     for order in (0, 1):
+                      for cform in ("-", "bias", "full"):
+                        if how == "same" and order == 1:
+                            continue
                         L = ["new a %s %s" % (dims_s(da), vals_s(list(range(1, prod(da) + 1)) if mode == "exact" else floats(rng, prod(da)), mode)),
-                             "tracked a", ("reshape v a %s" % dims_s(dv)) if how == "reshape" else "clone v a"]
-                        x, y, fx, fy = ("a", "v", ta, tb) if order == 0 else ("v", "a", tb, ta)
+                             "tracked a"]
+                        if how == "reshape":
+                            L.append("reshape v a %s" % dims_s(dv))
+                        elif how == "clone":
+                            L.append("clone v a")
+                        other = "a" if how == "same" else "v"      # `same`: literally the same handle on both sides
+                        x, y, fx, fy = ("a", other, ta, tb) if order == 0 else (other, "a", tb, ta)
+                        dx, dy = (da, dv) if order == 0 else (dv, da)
                         if order == 1:
                             kx = dv[-2] if fx == "T" else dv[-1]
                             ky = da[-1] if fy == "T" else da[-2]
                             if kx != ky:
                                 continue
-                        L += ["matmul r %s %s %s %s -" % (x, fx, y, fy), "backward r -", "grad a", "grad v"]
-                        cases.append(Case(L, ("svmm", tuple(da), tuple(dv), ta, tb, how, order), ["matmul", how], mode,
+                        rows_ = dx[-1] if fx == "T" else dx[-2]
+                        cols_ = dy[-2] if fy == "T" else dy[-1]
+                        cname = "-"
+                        if cform != "-":
+                            cd = [cols_] if cform == "bias" else [rows_, cols_]
+                            # an additive term that is neither constant nor symmetric
+                            cv = [3 * i * i + 2 * i + 1 for i in range(prod(cd))]
+                            L += ["new c %s %s" % (dims_s(cd), vals_s(cv if mode == "exact" else [float(v) / 4 for v in cv], mode)), "tracked c"]
+                            cname = "c"
+                        L += ["matmul r %s %s %s %s %s" % (x, fx, y, fy, cname), "backward r -", "grad a"]
+                        if how != "same":
+                            L.append("grad v")
+                        if cname == "c":
+                            L.append("grad c")
+                        cases.append(Case(L, ("svmm", tuple(da), tuple(dv), ta, tb, how, order, cform), ["matmul", how, "c=" + cform], mode,
                                           nontrivial=True))
     for _ in range(n):
         p = Prog(rng, mode)
